@@ -71,7 +71,10 @@ def mmLblToStr : MM.Lbl → String
   | .p1 => "p1" | .p2 => "p2" | .mp => "mp"
 
 def mmDbToStr (db : MM.DB) : String :=
-  let ctors := " ".intercalate (db.ctors.map fun c => s!"({c.sym} {natsToStr c.args})")
+  let ctors := " ".intercalate (db.ctors.map fun c =>
+    match c.body with
+    | none => s!"({c.sym} {natsToStr c.args})"
+    | some b => s!"({c.sym} {natsToStr c.args} (body {mmTermToStr b}))")
   let rules := " ".intercalate (db.rules.map fun r => s!"(({" ".intercalate (r.hyps.map mmTermToStr)}) {mmTermToStr r.concl})")
   s!"(db {natsToStr db.floats} (imp {db.impArgs.1} {db.impArgs.2}) (app {db.appArgs.1} {db.appArgs.2}) (ctors {ctors}) (rules {rules}) (p1 {db.p1.1} {db.p1.2}) (p2 {db.p2.1} {db.p2.2.1} {db.p2.2.2}) (mp {db.mp.1} {db.mp.2}))"
 
